@@ -122,6 +122,32 @@ pub fn oracle(case: &Case) -> Verdict {
                 other.map(|t| crate::engine::truncate(&format!("{:?}", t), 200))
             ),
         }
+        // the version-less entry point and the atom-cache entry point report trailing bytes too
+        if case.compress == 0 {
+            match erltf::decoder::decode_raw_term(&with[1..]) {
+                Err(DecodeError::TrailingData(n)) if n == case.junk.len() => {}
+                other => vfail!(
+                    "trailing-data-not-reported",
+                    "decode_raw_term of term + {} junk bytes gave {:?}",
+                    case.junk.len(),
+                    other.map(|t| crate::engine::truncate(&format!("{:?}", t), 200))
+                ),
+            }
+            // `131 Term Term junk` through the atom-cache entry point: control, payload, then junk
+            let mut two = bytes.clone();
+            two.extend_from_slice(&bytes[1..]);
+            two.extend_from_slice(&case.junk);
+            let mut cache = erltf::AtomCache::new();
+            match erltf::decode_with_atom_cache(&two, &mut cache) {
+                Err(DecodeError::TrailingData(n)) if n == case.junk.len() => {}
+                other => vfail!(
+                    "trailing-data-not-reported",
+                    "decode_with_atom_cache of control + payload + {} junk bytes gave {:?}",
+                    case.junk.len(),
+                    other.map(|t| crate::engine::truncate(&format!("{:?}", t), 200))
+                ),
+            }
+        }
         match erltf::decoder::decode_with_trailing(&with) {
             Ok((t, rest)) => {
                 if rest != &case.junk[..] {
